@@ -23,6 +23,7 @@ EXPLANATION = (
     " (R5) inherited declarations are seen; (R6) a parameterised class hands its arguments to its generic base by position, paired with the variables of its own class; (R7) dictionary literals are typed exactly when their keys can be dataclass fields; (R8) a repeated key has the type of its last entry; (R9) the base a class inherits its parameters from is its first parameterised base other than Generic[..]; (R10) an unparameterised subclass is followed through what it inherits before type variables are given up."
     " (R12/R13) the iterable test does not consult the element type; the result of a nested collection operator derives from the collection method's call."
     " (R14) the MRO walk of get_method_and_class is ended only by a class that has a different attribute of that name, not by one that has none."
+    " (R17, as of D53) a base is replaced by the typing alias of the same name only when it is a collections.abc class; (R18, as of D54) an attribute of a dataclass-typed value is refused only when the class has no such attribute at all; (R1, as of D55) the unary rule is evaluated as a decision list: `not` gives bool, the other unary operators the operand's type; (R19, as of D57) unwrap_iterable walked with get_args(t) == () comes to `return Any`; (R20) = C07.R13."
 )
 NOT_DECIDED = "the type-variable algebra of util_types.py over arbitrary class models (it manipulates runtime typing objects whose structure is not in this repository's source)."
 
